@@ -100,7 +100,7 @@ var pathExprs = []exprSpec{
 }
 
 var placements = []string{"direct", "grouping-local", "grouping-remote", "augment-from-user", "augment-into-user", "typedef-remote", "submodule", "grouping-unused", "grouping-nested-remote",
-	"uses-when-remote", "refine-must-remote", "deviate-add-must", "augment-when-remote", "typedef-unused", "submodule-noimport", "submodule-grouping-unused", "submodule-typedef-unused"}
+	"uses-when-remote", "refine-must-remote", "deviate-add-must", "augment-when-remote", "typedef-unused", "submodule-noimport", "submodule-grouping-unused", "submodule-typedef-unused", "deviate-add-must-hidden"}
 
 // carriers: must, when, leafref path, leafref path as a member of a union ("upath")
 var carriers = []string{"must", "when", "path", "upath"}
@@ -133,7 +133,7 @@ func genCase(t *rapid.T) Case {
 var companionPlacements = map[string]bool{"grouping-remote": true, "grouping-nested-remote": true, "typedef-remote": true}
 
 // placements that exist for one carrier only
-var onlyCarrier = map[string]string{"typedef-remote": "path", "typedef-unused": "path", "submodule-typedef-unused": "path", "uses-when-remote": "when", "augment-when-remote": "when", "refine-must-remote": "must", "deviate-add-must": "must"}
+var onlyCarrier = map[string]string{"typedef-remote": "path", "typedef-unused": "path", "submodule-typedef-unused": "path", "uses-when-remote": "when", "augment-when-remote": "when", "refine-must-remote": "must", "deviate-add-must": "must", "deviate-add-must-hidden": "must"}
 
 const (
 	nsA = "urn:verif:ma"
@@ -257,6 +257,15 @@ func build(c Case) (mods []*sg.Mod, definer string, binds map[string]string, use
 		m1.Nodes[0].Kids = append(m1.Nodes[0].Kids, leaf("carrier"))
 		m2.Deviations = []*sg.Deviation{{Target: "/" + u1 + ":m1-top/" + u1 + ":carrier", Deviates: []sg.Deviate{{Kind: "add", Stmts: []string{"must " + sg.Quote(e) + ";"}}}}}
 		definer, binds = "m2", bindsM2
+	case "deviate-add-must-hidden":
+		// ... and the deviated node depends on a feature that is not enabled (the set is compiled without features): the
+		// node is not built, the must is part of M2's text all the same
+		m1.Features = []*sg.Feature{{Name: "hid"}}
+		hidden := leaf("carrier")
+		hidden.IfFeatures = []string{"hid"}
+		m1.Nodes[0].Kids = append(m1.Nodes[0].Kids, hidden)
+		m2.Deviations = []*sg.Deviation{{Target: "/" + u1 + ":m1-top/" + u1 + ":carrier", Deviates: []sg.Deviate{{Kind: "add", Stmts: []string{"must " + sg.Quote(e) + ";"}}}}}
+		definer, binds = "m2", bindsM2
 	case "submodule-grouping-unused", "submodule-typedef-unused":
 		// a definition nobody uses, written in a submodule: its expressions are checked all the same
 		sub := &sg.Mod{Name: "m1-sub", Prefix: "m1", BelongsTo: "m1", Imports: []sg.Import{{Mod: "ma", Prefix: "x"}, {Mod: "mc", Prefix: "y"}}}
@@ -366,7 +375,11 @@ func checkCase(c Case) fw.Outcome {
 		out.Skip = true
 		return out
 	}
-	res := sgc.Compile(mods, sgc.Opts{Features: sgc.AllFeatures{}, SkipUnknown: c.SkipUnknown})
+	copts := sgc.Opts{Features: sgc.AllFeatures{}, SkipUnknown: c.SkipUnknown}
+	if c.Placement == "deviate-add-must-hidden" {
+		copts.Features = sgc.FeatureSet{}
+	}
+	res := sgc.Compile(mods, copts)
 	var texts []string
 	defText := ""
 	for _, m := range mods {
@@ -443,7 +456,7 @@ func checkCase(c Case) fw.Outcome {
 		}
 		return out
 	}
-	if strings.HasSuffix(c.Placement, "-unused") {
+	if strings.HasSuffix(c.Placement, "-unused") || strings.HasSuffix(c.Placement, "-hidden") {
 		return out
 	}
 	// on success: every prefixed step carries the namespace bound in the DEFINING module
